@@ -20,6 +20,14 @@ Theorem c07_dump_table_hash_order_independent_partial :
   dump_table_perm perm d ids = dump_table d ids.
 Proof. exact dump_table_perm_independent. Qed.
 
+(* FULL version: for any duplicate-free id stream (in particular any strictly increasing one) the ids held
+   by the store are distinct (store invariant proved through add_table), so the modelled dump_table is
+   independent of the HashMap iteration order of ObjectStore.objects *)
+Theorem c07_dump_table_hash_order_independent :
+  forall (perm : list (obj * Z) -> list (obj * Z)) d ids,
+  (forall l, Permutation l (perm l)) -> NoDup ids -> dump_table_perm perm d ids = dump_table d ids.
+Proof. exact dump_table_hash_order_independent. Qed.
+
 (* Hash-map iteration order, the `removed_edges` check that ends sort_kahn and
    sort_shortest_distance ("cycle or something?"): outcome independent of the iteration order *)
 Theorem c07_removed_edges_check_iteration_independent : forall nodes r r',
@@ -45,5 +53,6 @@ Proof. exact serialize_rename_invariant. Qed.
 
 Print Assumptions c07_from_obj_store_iteration_independent.
 Print Assumptions c07_dump_table_hash_order_independent_partial.
+Print Assumptions c07_dump_table_hash_order_independent.
 Print Assumptions c07_removed_edges_check_iteration_independent.
 Print Assumptions c07_serialize_rename_invariant.
